@@ -19,6 +19,7 @@ RULE = ("lattice: variable layouts (one array n=1,2,3,6 passed bare or in a list
         "iteration of every run is judged. A run is non-trivial if at least one judged update had a reachable "
         "volume, the multiplier root inside the bracket and a variable strictly inside its move box (the multiplier "
         "decides the design); distinct by (problem descriptor, l1l2tol, stopping)")
+RULE += " Extended in seeding rounds 6-7:  wrong-sign rounding noise in one sensitivity, shared start array, slice variables, integer-typed bounds, designs of earlier iterations held by reference."
 ASSUMPTIONS = [
     "start designs lie inside [xmin, xmax] or (thorough, start 'near_out') outside by less than the move limit; a "
     "start further outside makes the bound and the move-limit demand contradict each other and is kept out",
